@@ -9,7 +9,7 @@
    state has it; EImport s the execution and storing of the block with stated hash s. *)
 From Coq Require Import NArith ZArith List Bool Lia Permutation Sorted.
 From Common Require Import Outcome.
-From C32 Require Import Gen Model ModelSpec ProofsChain ProofsImport ProofsProcess ProofsHistory.
+From C32 Require Import Gen Model ModelSpec ModelPrune ProofsChain ProofsImport ProofsProcess ProofsHistory ProofsPrune.
 Import ListNotations.
 Local Open Scope N_scope.
 
@@ -73,6 +73,32 @@ Theorem C32_parents_first_never_twice_any_sort :
     /\ history_ok_b [] steps (observe bad steps outs) = true.
 Proof. exact parents_first_any_sort. Qed.
 Print Assumptions C32_parents_first_never_twice_any_sort.
+
+(* The block state that PRUNES on finalisation (ModelPrune.v: as dot/state.BlockState, a finalisation
+   — by a justification imported in the same Process call or by GRANDPA between calls — drops every
+   stored block that is neither an ancestor nor a descendant of the finalised one, and HasHeader
+   answers false for it afterwards; [prune] = false gives the growing block state again).
+   For every permutation-producing sort, both values of [prune], every bad-block list and EVERY
+   history (announces directly or through OnBlockAnnounce, headers stored from elsewhere,
+   finalisations of stored blocks, Process calls with arbitrary results asking for bodies):
+   - no Process call panics;
+   - PARENTS FIRST: no importer event is EOrphan, i.e. no block is ever handed over whose parent
+     header had never been in the block state; the only refusal for a missing parent that can occur
+     is EOrphanPruned: the parent WAS stored and a finalisation pruned its fork meanwhile
+     (C32_pruned_parent_example shows that this does occur, within one Process call);
+   - no header is handed over that the block state already has (no EDup);
+   - PROVENANCE: every imported block (EImport s) is a block of some response of the history that
+     validateResults accepted, and in that response its stated hash equals the hash of its header. *)
+Theorem C32_pruning_parents_first_provenance :
+  forall srt : list (list bdata) -> list (list bdata), (forall l, Permutation (srt l) l) ->
+  forall prune bad root steps, tsteps_body_b steps = true ->
+  exists outs stf,
+    run_t srt prune bad (init_tstate root) steps = (outs, false, stf)
+    /\ length outs = length steps
+    /\ Forall (fun e => match e with EOrphan _ | EDup _ => False | _ => True end) (tall_events outs)
+    /\ (forall s, In (EImport s) (tall_events outs) -> provenance bad steps s).
+Proof. exact pruning_safe. Qed.
+Print Assumptions C32_pruning_parents_first_provenance.
 
 (* the precondition of C32_history_safe implies the one above, and run is run_with sort_frags *)
 Theorem C32_wf_implies_body : forall steps, steps_wf_b steps = true -> steps_body_b steps = true.
@@ -196,6 +222,29 @@ Example C32_announce_example :
     /\ pr_reps a2 = [(8, REP_NOT_RELEVANT)] /\ pr_reps a3 = [(7, REP_BAD_ANNOUNCE)]
     /\ pr_reps a4 = [] /\ pr_reps a5 = [(7, REP_GOSSIP_OK)] /\ p_queue (pr_state a5) = [QBody 3]
     /\ pr_events r2 = [EImport 3] /\ u_incomplete (p_un st) = []
+  | _ => False
+  end.
+Proof. vm_compute. repeat split; reflexivity. Qed.
+
+(* Pruning inside one Process call: forks 1 <- 2 (= H2) and 4 (= H4, parent 1) are stored; one
+   response brings block 5 (child of 4) and one brings block 3 (child of 2) WITH a justification.
+   Both have number 3; 3 arrived first, is imported first and finalised, which prunes block 4; block 5 is then
+   handed over although its parent is no longer in the block state: Process returns an error.
+   Without pruning both are imported. *)
+Example C32_pruned_parent_example :
+  let jblk h := mkbd (h_hash h) (Some h) true true in
+  let hist := [ TKnown H1; TKnown H2; TKnown H4;
+                TProcess [ res 2 [jblk H3]; res 1 [blk H5] ] ] in
+  tsteps_body_b hist = true /\
+  match run_t sort_frags true [] (init_tstate 0) hist with
+  | ([None; None; None; Some r], false, _) =>
+    tr_events r = [EImport 3; EFinal 3; EOrphanPruned 5] /\ tr_error r = true
+    /\ map k_hash (t_known (ts_env (tr_state r))) = [3; 2; 1; 0]
+  | _ => False
+  end /\
+  match run_t sort_frags false [] (init_tstate 0) hist with
+  | ([None; None; None; Some r], false, _) =>
+    tr_events r = [EImport 3; EFinal 3; EImport 5] /\ tr_error r = false
   | _ => False
   end.
 Proof. vm_compute. repeat split; reflexivity. Qed.
